@@ -29,7 +29,7 @@ def load_baseline(prop, which='discharged'):
 
 TRUSTED_COMMON = [
     'the VC generator vlib/pyvc (own AST->z3 symbolic executor; Python semantics idealised: mathematical integers and reals, no rounding/overflow/NaN, insertion-ordered dicts, distinct parameters do not alias)',
-    'z3 (and cvc5 in the thorough tier) answering unsat',
+    'z3 5.1 answering unsat (no second solver is consulted; finite-scope z3 models are used only to refute)',
     'assumed library contracts in vlib/pyvc/lib.py (random, numpy, heapq, collections, networkx read-only API)',
     'finite-sum / cardinality update lemmas for wsum and cnt (vlib/pyvc/sorts.py)',
 ]
